@@ -3,7 +3,7 @@
    calcDescriptor<X>Length: Gen/Preds.v (re-translated from descriptor.go on every run);
    Spec: Spec/DescSpec.v (body sizes from the standards as plain integers, the TLV split as a relation on bytes). *)
 From Coq Require Import ZArith List Lia.
-Require Import Base.Bits Base.Iter Base.Wr Gen.Consts Gen.Types Gen.Preds Model.Desc Spec.DescSpec Proofs.DescProofs.
+Require Import Base.Bits Base.Iter Base.Wr Gen.Consts Gen.Types Gen.Preds Model.Desc Spec.DescSpec Proofs.DescProofs Proofs.DescRoundTrip2.
 Import ListNotations.
 Open Scope Z_scope.
 
@@ -366,3 +366,83 @@ Proof.
       apply (brt_user_defined (set_UserDefined (desc_hdr 200 0) [1; 2; 3])); cbv; intuition discriminate.
   - eexists. split; [vm_compute; reflexivity|]. split; vm_compute; reflexivity.
 Qed.
+
+(* ================= (c, continued) the remaining typed tags =================
+   Same statement shape as above.  List-valued bodies: every item inside its field widths (wf_<tag>_item), at least one
+   item (a zero-item body is written as length 0 and comes back as the bare header: S7, covered by entry_rt in
+   C14_loop_roundtrip) and at most as many as fit 255 bytes.  Language / country codes are exactly 3 bytes. *)
+
+Theorem C14_rt_content : forall d v out rest,
+  Descriptor_Tag d = 84 -> Descriptor_Content d = Some v -> Forall wf_content_item (DescriptorContent_Items v) ->
+  0 < zlen (DescriptorContent_Items v) < 128 ->
+  enc_descriptors_with_length [d] = Ok out -> items_bytes_ok out ->
+  parse_descriptors (new_iter (bytes_of_items out ++ rest)) =
+    Ok ([set_Content (desc_hdr 84 (2 * zlen (DescriptorContent_Items v))) v],
+        mk_iter (bytes_of_items out ++ rest) (4 + 2 * zlen (DescriptorContent_Items v))).
+Proof. exact rt_content. Qed.
+Print Assumptions C14_rt_content.
+
+Theorem C14_rt_parental_rating : forall d v out rest,
+  Descriptor_Tag d = 85 -> Descriptor_ParentalRating d = Some v -> Forall wf_parental_rating_item (DescriptorParentalRating_Items v) ->
+  0 < zlen (DescriptorParentalRating_Items v) < 64 ->
+  enc_descriptors_with_length [d] = Ok out -> items_bytes_ok out ->
+  parse_descriptors (new_iter (bytes_of_items out ++ rest)) =
+    Ok ([set_ParentalRating (desc_hdr 85 (4 * zlen (DescriptorParentalRating_Items v))) v],
+        mk_iter (bytes_of_items out ++ rest) (4 + 4 * zlen (DescriptorParentalRating_Items v))).
+Proof. exact rt_parental_rating. Qed.
+Print Assumptions C14_rt_parental_rating.
+
+Theorem C14_rt_subtitling : forall d v out rest,
+  Descriptor_Tag d = 89 -> Descriptor_Subtitling d = Some v -> Forall wf_subtitling_item (DescriptorSubtitling_Items v) ->
+  0 < zlen (DescriptorSubtitling_Items v) < 32 ->
+  enc_descriptors_with_length [d] = Ok out -> items_bytes_ok out ->
+  parse_descriptors (new_iter (bytes_of_items out ++ rest)) =
+    Ok ([set_Subtitling (desc_hdr 89 (8 * zlen (DescriptorSubtitling_Items v))) v],
+        mk_iter (bytes_of_items out ++ rest) (4 + 8 * zlen (DescriptorSubtitling_Items v))).
+Proof. exact rt_subtitling. Qed.
+Print Assumptions C14_rt_subtitling.
+
+(* teletext pages: the writer emits the two 4-bit digits Page/10 and Page%10, so every Page below 160 comes back
+   (the standard's two BCD digits are 0..99) *)
+Theorem C14_rt_teletext : forall d v out rest,
+  Descriptor_Tag d = 86 -> Descriptor_Teletext d = Some v -> Forall wf_teletext_item (DescriptorTeletext_Items v) ->
+  0 < zlen (DescriptorTeletext_Items v) < 52 ->
+  enc_descriptors_with_length [d] = Ok out -> items_bytes_ok out ->
+  parse_descriptors (new_iter (bytes_of_items out ++ rest)) =
+    Ok ([set_Teletext (desc_hdr 86 (5 * zlen (DescriptorTeletext_Items v))) v],
+        mk_iter (bytes_of_items out ++ rest) (4 + 5 * zlen (DescriptorTeletext_Items v))).
+Proof. exact rt_teletext. Qed.
+Print Assumptions C14_rt_teletext.
+
+Theorem C14_rt_vbi_teletext : forall d v out rest,
+  Descriptor_Tag d = 70 -> Descriptor_VBITeletext d = Some v -> Forall wf_teletext_item (DescriptorTeletext_Items v) ->
+  0 < zlen (DescriptorTeletext_Items v) < 52 ->
+  enc_descriptors_with_length [d] = Ok out -> items_bytes_ok out ->
+  parse_descriptors (new_iter (bytes_of_items out ++ rest)) =
+    Ok ([set_VBITeletext (desc_hdr 70 (5 * zlen (DescriptorTeletext_Items v))) v],
+        mk_iter (bytes_of_items out ++ rest) (4 + 5 * zlen (DescriptorTeletext_Items v))).
+Proof. exact rt_vbi_teletext. Qed.
+Print Assumptions C14_rt_vbi_teletext.
+
+(* the hypotheses are satisfiable: two teletext pages (struct Length wrong), the bytes written, and what comes back *)
+Definition ex_teletext : DescriptorTeletext := {| DescriptorTeletext_Items :=
+  [ {| DescriptorTeletextItem_Language := [102; 114; 97]; DescriptorTeletextItem_Magazine := 7; DescriptorTeletextItem_Page := 99;
+       DescriptorTeletextItem_Type := 31 |};
+    {| DescriptorTeletextItem_Language := [101; 110; 103]; DescriptorTeletextItem_Magazine := 1; DescriptorTeletextItem_Page := 159;
+       DescriptorTeletextItem_Type := 2 |} ] |}.
+Example C14_rt_teletext_example :
+  Forall wf_teletext_item (DescriptorTeletext_Items ex_teletext) /\
+  exists out, enc_descriptors_with_length [set_Teletext (desc_hdr 86 3) ex_teletext] = Ok out /\ items_bytes_ok out /\
+    bytes_of_items out = [240; 12; 86; 10; 102; 114; 97; 255; 153; 101; 110; 103; 17; 249].
+Proof.
+  split; [repeat constructor; cbv; intuition discriminate|].
+  eexists. split; [vm_compute; reflexivity|]. split; [repeat constructor; cbv; intuition discriminate|reflexivity].
+Qed.
+(* outside the domain: page 160 is written as digits (16 mod 16, 0) and comes back as page 0 *)
+Example C14_teletext_page_160 :
+  let it p := {| DescriptorTeletextItem_Language := [102; 114; 97]; DescriptorTeletextItem_Magazine := 0; DescriptorTeletextItem_Page := p;
+                 DescriptorTeletextItem_Type := 1 |} in
+  res_bind (enc_descriptors_with_length [set_Teletext (desc_hdr 86 0) {| DescriptorTeletext_Items := [it 160] |}])
+    (fun out => res_map (fun r => map Descriptor_Teletext (fst r)) (parse_descriptors (new_iter (bytes_of_items out))))
+  = Ok [Some {| DescriptorTeletext_Items := [it 0] |}].
+Proof. vm_compute. reflexivity. Qed.
